@@ -38,7 +38,9 @@ Rules2 ==
 
 Rules3 ==
     [ start |-> Rule(Ref("E")),
-      E     |-> Rule(<<"optable", Ref("Word"), << <<"left", <<Str(<<plus>>)>>>> >> >>),
+      \* (the bracketed form: the table's result is then an instance that matched LESS than the table did)
+      E     |-> Rule(<<"optable", Ref("Word"), << <<"mixfix", <<Left(Right(Str(<<lpar>>), Ref("E")), Str(<<rpar>>))>>>>,
+                                                   <<"left", <<Str(<<plus>>)>>>> >> >>),
       Word  |-> Class(<<Field("w", WordRx)>>),
       Box   |-> ClassP(<<"p">>, <<Field("it", Ref("p"))>>),
       T     |-> Rule(Star(Call("Box", <<Pos(Ref("Word"))>>))) ]
@@ -83,7 +85,10 @@ Texts(i) ==
                         <<lpar, sp, a, NL, sp, b, rpar, sp, a>> >>
       [] i = 3 -> TextSeqUpTo(<<a, b>>, N + 1)
       [] i = 4 -> TextSeqUpTo(<<a, b, sp, NL>>, N) \o << <<b, NL, a, sp, b, NL, a, NL>> >>
-      [] i = 5 -> TextSeqUpTo(<<a, plus, sp, NL>>, N) \o << <<a, sp, plus, NL, b, plus, a, b, NL>> >>
+      [] i = 5 -> TextSeqUpTo(<<a, plus, sp, NL>>, N)
+                  \o << <<a, sp, plus, NL, b, plus, a, b, NL>>, <<lpar, a, rpar>>, <<lpar, sp, a, sp, rpar, sp, plus, sp, b>>,
+                        <<lpar, lpar, a, rpar, rpar>>, <<lpar, a, plus, b, rpar, plus, a>>, <<sp, lpar, NL, a, NL, rpar, NL>>,
+                        <<a, plus, lpar, b, rpar>>, <<lpar, a>> >>
       [] i = 7 -> TextSeqUpTo(<<a, b, sp>>, N)
       [] i = 6 -> TextSeqUpTo(<<a, sp, NL>>, N + 1) \o << <<a, b, NL, NL, b, a, sp, a>>, <<a, sp, NL, sp, b, b, NL>> >>
 
